@@ -12,10 +12,10 @@ def sh(cmd):
 dst_demo = os.path.join(wt, pkg, 'zz_seed_demo_test.go')
 def run_demo():
     if pkg == '-':   # demo runs in place (external test package under seeded/, tag verif)
-        return sh("go test -tags verif,seeded_demo,c07demo -vet=off -count=1 -run '%s' ./seeded/%s/" % (rx, sid))
+        return sh("go test -tags verif,seeded_demo,c07demo,c03demo,c05demo,c11demo,c15demo,c17demo,c18demo,c20demo -vet=off -count=1 -run '%s' ./seeded/%s/" % (rx, sid))
     shutil.copy(os.path.join(src, demo), dst_demo)
     try:
-        return sh("go test -tags verif,seeded_demo,c07demo -vet=off -count=1 -run '%s' ./%s/" % (rx, pkg))
+        return sh("go test -tags verif,seeded_demo,c07demo,c03demo,c05demo,c11demo,c15demo,c17demo,c18demo,c20demo -vet=off -count=1 -run '%s' ./%s/" % (rx, pkg))
     finally:
         os.remove(dst_demo)
 rec = {}
